@@ -64,6 +64,11 @@ func execCase(t *testing.T, rc *RunCase, rngForGen func() chooser, keep bool, de
 		rr.Violations = append(vs, v14...)
 		rr.SimUS, rr.Stats = out.SimUS, out.Stats
 		rr.Stats["c14_cases"] = int64(len(obs))
+		for _, c := range rc.C14 {
+			if c.Lag > 0 && !rc.C14Real {
+				rr.Stats["probe_go_written_to_lagging_gui"]++
+			}
+		}
 		if rc.GridSlice > 0 && len(obs) == len(rc.C14) {
 			rr.Stats["c14_grid_cases"] = int64(len(obs))
 			rr.gridSlice = rc.GridSlice
@@ -75,6 +80,12 @@ func execCase(t *testing.T, rc *RunCase, rngForGen func() chooser, keep bool, de
 			}
 			if o.Case.Ponder {
 				rr.Stats["fault_ponderhit"]++
+			}
+			if o.Case.Lag > 0 && !rc.C14Real {
+				rr.Stats["fault_gui_behind_with_reading_at_go"]++
+			}
+			if o.Case.Debug {
+				rr.Stats["probe_debug_on"]++
 			}
 			switch {
 			case o.Case.MoveTime > 0:
@@ -219,6 +230,11 @@ func uciReach(out *UCIOutcome, rr *RunResult) {
 		}
 		switch e.Kind {
 		case "IN":
+			if searching && (kw == "go" || kw == "position") {
+				// written behind a stop without waiting for the bestmove
+				rr.Stats["fault_"+kw+"_queued_behind_unwinding_search"]++
+				rr.nontrivial = true
+			}
 			if searching {
 				switch kw {
 				case "stop":
